@@ -623,6 +623,36 @@ Definition check_vcrun (v : vcase) (ipre ipost : obs) (x : vcrun) : nat * nat * 
 Definition check_vconts (v : vcase) (ipre ipost : obs) (xs : list vcrun) := map (check_vcrun v ipre ipost) xs.
 Definition cont_oracle_only (ipre ipost : obs) (xs : list vcrun) : list bool := map (c08_cont_ok ipre ipost) xs.
 
+(** ** after a death inside an operation: what the restarted process can do next.  The directory left
+    by the kill before model call [k] is opened and a follow-up history (open; set mode; a Snapshot,
+    or a Revert to a retained snapshot) is run on it.  Oracle on the observations: every step
+    succeeds and leaves a well-formed chain — leftovers of the interrupted attempt (a next head that
+    was created and truncated but never committed, hard links of a snapshot) are removed or reused,
+    not refused. *)
+Definition vic_follow (v : vcase) (k : nat) (os : list op) : list obs :=
+  let '(w, _, _) := exec (vic_prog v) (s_fs (vic_state v)) 0 (Some k) None in
+  trace_ops (vc_cfg v) (vc_univ v) (mkst w None) os.
+Definition follow_ok (l : list obs) : bool :=
+  forallb (fun o => rclass_eqb (o_res o) COk && wf_obs o) l.
+(** per run: (k, first differing (step, field) or (999, 0), oracle on the implementation, oracle on the model) *)
+Definition check_follow (v : vcase) (os : list op) (x : nat * list obs) : nat * (nat * nat) * bool * bool :=
+  let m := vic_follow v (fst x) os in
+  (fst x, match first_diff 0 m (snd x) with Some d => d | None => (999, 0) end, follow_ok (snd x), follow_ok m).
+(** (the pre-state is computed once) *)
+Definition check_follows (v : vcase) (os : list op) (xs : list (nat * list obs)) :=
+  let p := vic_prog v in
+  let w0 := s_fs (vic_state v) in
+  map (fun x : nat * list obs =>
+         let '(w, _, _) := exec p w0 0 (Some (fst x)) None in
+         let m := trace_ops (vc_cfg v) (vc_univ v) (mkst w None) os in
+         (fst x, match first_diff 0 m (snd x) with Some d => d | None => (999, 0) end, follow_ok (snd x), follow_ok m)) xs.
+(** model only: the follow-up succeeds after a death before every call *)
+Definition follow_all_ok (v : vcase) (os : list op) : bool :=
+  let p := vic_prog v in
+  let w0 := s_fs (vic_state v) in
+  forallb (fun k => let '(w, _, _) := exec p w0 0 (Some k) None in
+                    follow_ok (trace_ops (vc_cfg v) (vc_univ v) (mkst w None) os)) (seq 0 (S (vic_ncalls v))).
+
 (** model-only exploration: for every call index the side of a kill and, per errno, result class and side *)
 Definition vic_kill_sides (v : vcase) : list nat :=
   let n := vic_ncalls v in
